@@ -2096,7 +2096,7 @@ class AstEval:
                     for name in await self.get_target_names(target):
                         local_names.add(name)
                         names.add(name)
-            elif cls_name in {"AugAssign", "For", "AsyncFor", "NamedExpr"}:
+            elif cls_name in {"AugAssign", "AnnAssign", "For", "AsyncFor", "NamedExpr"}:
                 for name in await self.get_target_names(arg.target):
                     local_names.add(name)
                     names.add(name)
